@@ -134,6 +134,7 @@ static g_short guest_node(g_ptr cb, g_int base_code, g_int n, g_long argfault, g
   auto* s = SB::current();
   (void)argfault;
   auto f = (g_long(*)(g_int, g_short))s->rep_to_fn(cb);
+  if (!f) return (g_short)(retf ? 70000 : 1); // null entry point: no callback runs (reported by the exactly-once oracle)
   for (g_int j = 0; j < n; j++) {
     g_long r = f(base_code + j, (g_short)(j == cbx ? 70000 : 0));
     // after a nested invocation the executing instance must still be this one
